@@ -15,7 +15,8 @@ P = cr.parse_term
 
 
 def cand(label, params, out):
-    return {"l": label, "ps": [P(x) for x in params.split(";")], "o": P(out)}
+    ps = params.split(";")
+    return {"l": label, "ps": [P(x.lstrip("*")) for x in ps], "o": P(out), "v": ps[-1].startswith("*")}     # '*' marks a variadic tail
 
 
 BASE = {
@@ -30,6 +31,15 @@ BASE = {
     "scale":  ([cand("by_int", "TS<int>;int", "TS<int>"), cand("by_flt", "TS<int>;float", "TS<int>")], "TS<int>;int"),
     "nest":   ([cand("tsd_ref", "TSD<$K,REF<TS<$S>>>", "TS<$S>"), cand("any", "~T", "~T")], "TSD<str,TS<int>>"),
     "nsig":   ([cand("tsd_sig", "TSD<$K,SIGNAL>", "TSS<$K>")], "TSD<int,TS<float>>"),
+    # variadic tails: f(*a: TS[S]) called as f(1, "a") / f(1, 1); f(x: TS[S], *a: TS[S]) called with (TS[int], TS[float])
+    "vhet":   ([cand("many", "*TS<$S>", "TS<int>"), cand("any", "*~T", "TS<int>")], "int;str"),
+    "vone":   ([cand("many", "*TS<$S>", "TS<int>")], "int;str"),
+    "vsame":  ([cand("many", "*TS<$S>", "TS<int>")], "int;int"),
+    "vout":   ([cand("tailout", "*TS<$S>", "TS<$S>"), cand("any", "*~T", "TS<int>")], "int;int"),
+    "vfix":   ([cand("same", "TS<$S>;*TS<$S>", "TS<$S>"), cand("any", "*~T", "TS<int>")], "TS<int>;TS<float>"),
+    # an output size variable that no input binds
+    "osize":  ([cand("grow", "TS<int>", "TSL<TS<int>,#N>"), cand("any", "~T", "~T")], "TS<int>"),
+    "oalone": ([cand("grow", "TS<int>", "TSL<TS<int>,#N>")], "TS<int>"),
 }
 
 
@@ -134,6 +144,51 @@ def c_only_candidate_dropped(it):
     e.update({"kind": "nomatch", "sel": "", "bind": [], "out": cr.SIG, "rej": ["tsd_sig"]})
 
 
+def c_variadic_rejected_fallback_wins(it):
+    # f(*a: TS[S]) is listed as rejected for (1, "a") (the first tail argument bound S for the second); f(*a: T) wins; ranks self-consistent
+    for e in [x for x in it["ev"] if x["e"] == "res"]:
+        e.update({"kind": "ok", "sel": "any", "bind": [], "out": P("TS<int>"), "rej": ["many"], "rk": [["any", 20003], ["many", 204]]})
+
+
+def c_only_variadic_rejected(it):
+    for e in [x for x in it["ev"] if x["e"] == "res"]:
+        e.update({"kind": "nomatch", "sel": "", "bind": [], "out": cr.SIG, "rej": ["many"], "rk": [["many", 204]]})
+
+
+def c_tail_binding_reported(it):
+    for e in [x for x in it["ev"] if x["e"] == "res"]:
+        e["bind"] = [["$S", P("int")]]
+
+
+def c_tail_binding_feeds_output(it):
+    # f(*a: TS[S]) -> TS[S]: the tail's throw-away binding survives and resolves the output
+    for e in [x for x in it["ev"] if x["e"] == "res"]:
+        e.update({"kind": "ok", "sel": "tailout", "bind": [["$S", P("int")]], "out": P("TS<int>"), "rej": [],
+                  "rk": [["tailout", 205], ["any", 20003]]})
+
+
+def c_tail_not_checked_against_fixed(it):
+    for e in [x for x in it["ev"] if x["e"] == "res"]:
+        e.update({"kind": "ok", "sel": "same", "bind": [["$S", P("int")]], "out": P("TS<int>"), "rej": [],
+                  "rk": [["same", 203], ["any", 20003]]})
+
+
+def c_unbound_output_size_wins(it):
+    # the output size variable falls back to the pattern's size 0 and the candidate beats the legitimate one
+    for e in [x for x in it["ev"] if x["e"] == "res"]:
+        e.update({"kind": "ok", "sel": "grow", "bind": [], "out": P("TSL<TS<int>,0>"), "rej": [], "rk": [["grow", 1], ["any", 10000]]})
+
+
+def c_unbound_output_size_alone(it):
+    for e in [x for x in it["ev"] if x["e"] == "res"]:
+        e.update({"kind": "ok", "sel": "grow", "bind": [], "out": P("TSL<TS<int>,0>"), "rej": [], "rk": [["grow", 1]]})
+
+
+def c_output_size_differs_from_binding(it):
+    e = ev_res(it)
+    e["out"] = P("TSL<TS<int>,3>")
+
+
 def c_unexpected_error(it):
     e = ev_res(it)
     e.update({"kind": "other", "sel": "", "bind": [], "out": cr.SIG})
@@ -173,6 +228,20 @@ CORRUPTIONS = [
      "C19.candidate_whose_parameters_match_the_arguments_was_rejected"),
     ("TSD<$K,SIGNAL> rejected for TSD<int,TS<float>>: resolution error", "nsig", c_only_candidate_dropped,
      "C19.candidate_whose_parameters_match_the_arguments_was_rejected"),
+    ("f(*a: TS[S]) rejected for (1, 'a'), the f(*a: T) fallback wins (ranks self-consistent)", "vhet", c_variadic_rejected_fallback_wins,
+     "C19.matching_variadic_candidate_rejected"),
+    ("f(*a: TS[S]) rejected for (1, 'a'): resolution error", "vone", c_only_variadic_rejected, "C19.matching_variadic_candidate_rejected"),
+    ("a tail argument's binding is reported in the result map", "vsame", c_tail_binding_reported,
+     "C19.tail_argument_bound_a_variable_for_other_positions"),
+    ("f(*a: TS[S]) -> TS[S] selected: the tail's binding resolves the output", "vout", c_tail_binding_feeds_output,
+     "C19.tail_argument_bound_a_variable_for_other_positions"),
+    ("f(x: TS[S], *a: TS[S]) selected for (TS[int], TS[float])", "vfix", c_tail_not_checked_against_fixed,
+     "C19.selected_variadic_candidate_does_not_match_a_tail_argument"),
+    ("TS<int> -> TSL<TS<int>,#N> selected with output TSL<TS<int>,0> over ~T (ranks self-consistent)", "osize", c_unbound_output_size_wins,
+     "C19.output_size_is_not_explained_by_any_binding"),
+    ("TS<int> -> TSL<TS<int>,#N> alone selected instead of the resolution error", "oalone", c_unbound_output_size_alone,
+     "C19.output_size_is_not_explained_by_any_binding"),
+    ("output size 3 although #N is bound to 2", "sized", c_output_size_differs_from_binding, "C19.output_type_is_not_substitution_of_bindings"),
     ("resolution raises another exception", "two", c_unexpected_error, "C19.resolution_raised_an_unexpected_error"),
     ("scenario did not complete (end dropped)", "two", c_drop_end, "trace.incomplete"),
 ]
